@@ -95,6 +95,8 @@ def size(tape: Any, small_max: int, big_max: int, label: str = 'size') -> int:
 def executor_check(w: World, h: Any, res: Optional[Result] = None) -> None:
     """The worker must still be looping; an exception that escaped it is a
     violation whose signature is the raising frame."""
+    if w.spin_sig:
+        return      # the worker was unwound by the spin watchdog; end_run reports it as cpu_spin
     if h.thread.finished:
         sig = h.thread.exc_tb or 'exited'
         msg = 'executor thread ended: %r' % (h.thread.exc,)
@@ -108,9 +110,17 @@ def executor_check(w: World, h: Any, res: Optional[Result] = None) -> None:
         w.fail('executor_died', sig, msg)
 
 
+def hang_failure(w: World) -> None:
+    if w.spin_sig:
+        w.failures.insert(0, ('cpu_spin', w.spin_sig, 'a simulated thread ran for more than %.0f real seconds without reaching a kernel '
+                              'call: endless loop in %s' % (w.spin_budget_s, ' <- '.join(w.spin_chain))))
+    else:
+        w.fail('hang', 'step-or-time-cap', 'run hit the step / virtual-time cap (steps=%d now=%.1f)' % (w.steps, w.now))
+
+
 def end_run(w: World, h: Any, res: Result) -> Result:
     if w.hung:
-        w.fail('hang', 'step-or-time-cap', 'run hit the step / virtual-time cap (steps=%d now=%.1f)' % (w.steps, w.now))
+        hang_failure(w)
     if hasattr(h, 'stop') and not w.hung:
         if h.alive():
             if not h.stop():
